@@ -239,7 +239,7 @@ def run(F, rep):
     import core
     import c09
     if not getattr(rep, 'nested', False):
-        c09.run(F, core.Borrowed(rep, only={'C09.P3', 'C09.P4', 'C09.Q1'}))
+        core.borrow(F, rep, c09, only={'C09.P3', 'C09.P4', 'C09.Q1'})
 
     # ------------------------------------------------------------------ W: walks over the component tree are complete
     import recursion as _recw
